@@ -24,10 +24,19 @@ class S(Strategy):
     def go_long(self):
         qty = 2
         self.buy = qty, self.price
-        self.take_profit = qty, self.price * 1.01
-        self.stop_loss = qty, self.price * 0.97
+        if not self.is_spot_trading:
+            self.take_profit = qty, self.price * 1.01
+            self.stop_loss = qty, self.price * 0.97
+    def on_open_position(self, order):
+        if self.is_spot_trading:
+            self.take_profit = self.position.qty, self.price * 1.01
+            self.stop_loss = self.position.qty, self.price * 0.97
     def go_short(self): pass
+    sma_period = None
     def before(self):
+        if self.sma_period and self.index == 70:
+            import jesse.indicators as ta
+            seen['sma'] = round(float(ta.sma(self.candles, self.sma_period)), 8)
         if self.index == 0:
             seen['shared'] = dict(self.shared_vars)
             seen['leverage'] = self.leverage
@@ -38,7 +47,7 @@ def candles(n=90):
     rows = []
     p = 100.0
     for i in range(n):
-        o = p; c = p * (1.004 if i % 9 < 6 else 0.997)
+        o = p * (1.001 if i % 7 == 3 else 1.0); c = o * (1.004 if i % 9 < 6 else 0.997)      # some opens jump away from the previous close
         rows.append([TS0 + i * 60000, o, c, max(o, c) * 1.0005, min(o, c) * 0.9995, 10])
         p = c
     return np.array(rows)
@@ -46,8 +55,9 @@ def candles(n=90):
 def session(cfg):
     c = {'starting_balance': cfg.get('balance', 10000), 'fee': cfg.get('fee', 0), 'type': cfg.get('type', 'futures'),
          'futures_leverage': cfg.get('leverage', 2), 'futures_leverage_mode': 'cross', 'exchange': cfg.get('exchange', 'Sandbox'),
-         'warm_up_candles': 0}
+         'warm_up_candles': cfg.get('warmup', 0)}
     ex = c['exchange']
+    S.sma_period = cfg.get('sma')
     routes = [{'exchange': ex, 'strategy': S, 'symbol': 'BTC-USDT', 'timeframe': '1m'}]
     arr = candles()
     keep = arr.copy()
@@ -89,6 +99,7 @@ SCENARIOS = {
     'memo': ([{'exchange': 'Sandbox', 'fee': 0.001, 'leverage': 2}], {'exchange': 'Sandbox', 'fee': 0.0, 'leverage': 5}),
     'drivers': ([{'exchange': 'Sandbox', 'fee': 0.0}], {'exchange': 'Bybit USDT Perpetual', 'fee': 0.0}),
     'vars': ([{'exchange': 'Sandbox'}], {'exchange': 'Sandbox'}),
+    'warmup': ([{'exchange': 'Sandbox', 'warmup': 50}], {'exchange': 'Sandbox', 'warmup': 0, 'sma': 60}),
     'spot-then-futures': ([{'exchange': 'Sandbox', 'type': 'spot'}], {'exchange': 'Sandbox', 'type': 'futures', 'leverage': 3}),
 }
 
@@ -161,13 +172,13 @@ def replay(pl):
             return {'confirmed': False, 'error': err}
         return {'confirmed': bool(d), 'detail': d or 'equal calls return equal, unshared results'}
     # the recorded finding (exchange-driver table frozen at the first session) is replayed by replay_finding only
-    order = ['memo', 'vars', 'spot-then-futures']
+    order = ['memo', 'vars', 'spot-then-futures', 'warmup']
     if ob.startswith('drivers'):
         order = ['drivers']
     elif ob.startswith('store-reset'):
         order = ['vars', 'spot-then-futures']
     elif ob.startswith('set_config') or ob.startswith('get_config') or ob.startswith('reset_config'):
-        order = ['memo', 'spot-then-futures']
+        order = ['memo', 'spot-then-futures', 'warmup']
     for name in order:
         d, err = scenario(name)
         if err:
